@@ -13,6 +13,7 @@
     NOT YET PROVED: nothing planned for C07 in DESIGN section 4 is missing. *)
 From KV Require Import Base.Prelude Base.Deque Model.Utf8 Model.Str Model.Chars Spec.Utf8
   Proofs.Utf8Proofs Proofs.CharsProofs.
+From KV Require Import Proofs.RevAnywhereProofs.
 
 (** encoding: konst's shift/mask encoder = Table 3-6, for every char *)
 Theorem C07_encode_eq_std : forall c, is_scalar c -> encode_m c = encode c.
@@ -56,6 +57,18 @@ Proof. exact char_indices_refines. Qed.
 Theorem C07_rchar_indices_refines : forall s, utf8 s = true -> forall h,
   run _ _ rcidx_next' rcidx_next_back' h (cidx_init s) = deque_run h (rev (char_indices s)).
 Proof. exact rchar_indices_refines. Qed.
+
+(** reversing AT ANY POINT of the iteration: after any history h1 of front / back steps, the
+    reversed iterator (rev() exchanges next and next_back) yields under ANY further history h2
+    what popping the reversed rest of std's deque yields *)
+Theorem C07_chars_rev_anywhere : forall s, utf8 s = true -> forall h1 h2,
+  run _ _ chars_next_back' chars_next' h2 (state_after _ _ chars_next' chars_next_back' h1 (chars_init s))
+  = deque_run h2 (rev (deque_rest h1 (chars s))).
+Proof. exact chars_rev_anywhere. Qed.
+Theorem C07_char_indices_rev_anywhere : forall s, utf8 s = true -> forall h1 h2,
+  run _ _ cidx_next_back' cidx_next' h2 (state_after _ _ cidx_next' cidx_next_back' h1 (cidx_init s))
+  = deque_run h2 (rev (deque_rest h1 (char_indices s))).
+Proof. exact char_indices_rev_anywhere. Qed.
 
 (** no step panics (split_at on a non-boundary, index underflow) or exhausts the model's
     loop bound while the remaining string is valid UTF-8 - an invariant of both steps *)
@@ -114,3 +127,5 @@ Print Assumptions C07_char_indices_never_panics.
 Print Assumptions C07_chars_as_str_middle.
 Print Assumptions C07_char_indices_as_str_middle.
 Print Assumptions C07_example.
+Print Assumptions C07_chars_rev_anywhere.
+Print Assumptions C07_char_indices_rev_anywhere.
